@@ -38,7 +38,7 @@ class Harness:
         self.doc = doc
 
     def tier(self, tier):
-        cfg = dict(self.tiers.get(tier) or self.tiers["quick"])
+        cfg = dict(self.tiers.get(tier) or self.tiers.get("all") or self.tiers.get("quick") or {})
         ranges = dict(self.params)
         ranges.update(cfg.get("ranges", {}))
         cfg["ranges"] = ranges
@@ -48,7 +48,12 @@ class Harness:
         cfg.setdefault("twin", True)
         return cfg
 
+    def present(self, tier):
+        return tier in self.tiers or "all" in self.tiers
+
     def obligations(self, tier):
+        if not self.present(tier):
+            return []
         cfg = self.tier(tier)
         ranges = cfg["ranges"]
         fixed0 = dict(cfg["fixed"])
@@ -68,6 +73,8 @@ class Harness:
         return obs
 
     def twin_obligation(self, tier):
+        if not self.present(tier):
+            return None
         cfg = self.tier(tier)
         if not cfg["twin"]:
             return None
